@@ -32,7 +32,7 @@ MIN_NONTRIVIAL = {'quick': 100, 'thorough': 1500}
 ANCHORS = ['loki/transformations/constant_propagation.py', 'loki/transformations/remove_code.py']
 REQUIRED_REACH = ['do_constant_propagation', 'do_remove_dead_code', 'do_remove_unused_vars',
                   'do_remove_unused_dummy_args', 'do_remove_unused_call_args', 'transform_subroutine']
-REQUIRED_COUNTERS = {'program_runs': 200}
+REQUIRED_COUNTERS = {'program_runs': 100}
 ASSUMPTIONS = ['gfortran 12 -O0 with run-time checks is the reference semantics',
                'generated programs are well-defined by construction (original must run clean, else discarded)',
                'real outputs compared to rtol 1e-9 / atol 1e-9 (folding and re-association of real expressions allowed)',
